@@ -44,7 +44,7 @@ def sealHeader : Backend → Bytes
   | .v4s => [46, 115, 101, 97, 108, 46]
 def nonceDrawLocal : Backend → Nat
   | .v1 => 32
-  | .v2 => 32
+  | .v2 => 24
   | .v3 => 32
   | .v3lc => 32
   | .v4 => 32
